@@ -136,4 +136,43 @@ theorem evProj_simSteps (full : Nat → Sess → Bool) : ∀ (n t : Nat) (evs : 
       have := hts e ((List.dropWhile_sublist _).subset he)
       push_cast; omega
 
+/-- every plugged-in session of a protocol history is also unplugged in it -/
+theorem wellFormedB_complete {ss : List Session} {h : List Event} (hw : wellFormedB ss h = true) :
+    ∀ e ∈ h, e.kind = .plugin → ∃ u ∈ h, u.kind = .unplug ∧ u.sess = e.sess := by
+  simp only [wellFormedB, Bool.and_eq_true, decide_eq_true_eq, List.all_eq_true] at hw
+  have hperm : h.Perm (expected ss) := List.isPerm_iff.1 hw.2
+  intro e he hk
+  obtain ⟨s, hs, hes⟩ := mem_expected (hperm.mem_iff.1 he)
+  have hep : e = s.plugEv := by
+    rcases hes with rfl | rfl
+    · rfl
+    · simp [Session.unplugEv] at hk
+  refine ⟨s.unplugEv, hperm.mem_iff.2 ?_, rfl, by rw [hep]; rfl⟩
+  simp only [expected, List.mem_flatMap]
+  exact ⟨s, hs, by simp⟩
+
+theorem foldl_max_spec : ∀ (l : List Event) (init : Int),
+    init ≤ l.foldl (fun (m : Int) (e : Event) => max m (e.ts + 1)) init ∧
+    ∀ e ∈ l, e.ts + 1 ≤ l.foldl (fun (m : Int) (e : Event) => max m (e.ts + 1)) init := by
+  intro l
+  induction l with
+  | nil => intro init; simp
+  | cons a t ih =>
+    intro init
+    simp only [List.foldl_cons]
+    obtain ⟨h1, h2⟩ := ih (max init (a.ts + 1))
+    refine ⟨le_trans (le_max_left _ _) h1, ?_⟩
+    intro e he
+    rcases List.mem_cons.1 he with rfl | he
+    · exact le_trans (le_max_right _ _) h1
+    · exact h2 e he
+
+/-- every timestamp lies below the horizon (the loop runs through the period of the last event) -/
+theorem ts_lt_horizon (h : List Event) : ∀ e ∈ h, e.ts < (horizon h : Int) := by
+  intro e he
+  have := (foldl_max_spec h 0).2 e he
+  unfold horizon
+  have h2 := Int.self_le_toNat (h.foldl (fun (m : Int) (e : Event) => max m (e.ts + 1)) 0)
+  omega
+
 end Acn.Stoch
